@@ -147,7 +147,28 @@ def stage_tables(ctx):
             continue
         bad = failing_conditions(m, m['b'], m['order'])
         bad_h = failing_conditions(m, m['b_hat'], m['emb_order']) if m['b_hat'] is not None else []
-        ctx.broken.append('order conditions of %s (gen/%s.v) no longer proved: %s' % (n, name, out[-300:]))
+        # the signature names the method, which conditions fail and the value of sum(b):
+        # a different defect of the same table is a different signature
+        osig = 'tableau:order-conditions:%s:b=%s:bhat=%s:sumb=%.6f' % (
+            n, ','.join(str(k) for k, _ in bad), ','.join(str(k) for k, _ in bad_h), float(sum(m['b'])))
+        if ctx.is_known(osig) and (bad or bad_h):
+            # a listed open finding: the obligation that is checked instead is the refutation
+            # (`<method>_order_refuted`): exactly these conditions fail for the table as translated today
+            import re as _re
+            txt = dict(files)[name]
+            goals = [clist(['%d%%nat' % k for k, _ in bad]), clist(['%d%%nat' % k for k, _ in bad_h])]
+            it = iter(goals)
+            rtxt = _re.sub(r'(Goal failing [^\n]*?) = \[\]\.', lambda mo: mo.group(1) + ' = (' + next(it) + ')%nat.', txt)
+            okr, outr = ctx.coq_eval(name + '_refuted', rtxt)
+            ctx.checker_cmds.append('cd coq && coqc -R . Verif gen/%s_refuted.v' % name)
+            if okr:
+                ctx.discharged += 1
+                ctx.trusted.append('%s_order_refuted: generated refutation (failing conditions %s / embedded %s) checked by vm_compute' % (
+                    n, goals[0], goals[1]))
+            else:
+                ctx.broken.append('refutation obligation for the known finding %s does not check: %s' % (osig, outr[-300:]))
+        else:
+            ctx.broken.append('order conditions of %s (gen/%s.v) no longer proved: %s' % (n, name, out[-300:]))
         if bad or bad_h:
             what = ('%s (solvers.py line %d) is documented as order %d%s but violates: ' % (
                 n, m['line'], m['order'], (' with embedded order %d' % m['emb_order']) if m['b_hat'] is not None else '')
@@ -166,7 +187,7 @@ def stage_tables(ctx):
                     what += " -- y' = 1 integrated to t = %g gives y = %.16g" % (r['times'][-1], r['sols'][-1][0])
             except Exception as e:  # noqa
                 replay['replay_error'] = str(e)[:200]
-            ctx.report('tableau:order-conditions:%s' % n, what, replay, found_input=True)
+            ctx.report(osig, what, replay, found_input=True)
         else:
             ctx.report('tableau:shape:%s' % n, 'table of %s is not well-shaped / not lower triangular: %s' % (n, out[-300:]),
                        {'method': n}, found_input=True)
@@ -1241,7 +1262,10 @@ def run(ctx):
     lap('tables translated + proved')
     if methods is None:
         return ctx.finish()
-    flagged = {v[0].split(':')[-1] for v in ctx.violations} | {h.split(':')[-1] for h in ctx.known_hits}
+    def _method_of(sig):
+        parts = sig.split(':')
+        return parts[2] if sig.startswith('tableau:') and len(parts) > 2 else parts[-1]
+    flagged = {_method_of(v[0]) for v in ctx.violations} | {_method_of(h) for h in ctx.known_hits}
     tie_tables(ctx, methods)
 
     # ---- one step -------------------------------------------------------
